@@ -64,6 +64,65 @@ def judge_runs128(rep, traces, wd):
     return bad
 
 
+def judge_fast(rep, cases, wd):
+    """run(start, stop) observations of every implementation/configuration judged by FastRun.tla (Step iterated to `stop`)."""
+    bad, skipped = [], []
+    keys = ('r0', 'ov0', 'stop', 'max', 'frame', 'ia', 'inv')
+    slim = [dict({k: c[k] for k in keys}, obs=[{k: o[k] for k in ('impl', 'r', 'wr', 'exc')} for o in c['obs']]) for c in cases]
+    path = os.path.join(wd, 'fast.json')
+    with open(path, 'w') as f:
+        json.dump(slim, f, separators=(',', ':'))
+    r = tlc.run(os.path.join(tlc.SPEC, 'z80'), 'FastRun', 'FastRun.cfg', env={'CASES': path}, tag='FastRun', timeout=3600, heap='16g')
+    tlc.check_machinery(r, 'FastRun')
+    rep.add_tlc(r, 'FastRun', traces=len(cases))
+    expect = sum(c['steps'] + 1 for c in cases)
+    if r.distinct != expect:
+        raise MachineryError('FastRun: expected %d states, TLC found %d\n%s' % (expect, r.distinct, r.out[-3000:]))
+    for i, clause in [(code - 1, clause) for code, clause in r.fails]:
+        if clause.startswith('machinery'):
+            raise MachineryError('FastRun: %s in case %d' % (clause, i))
+        if clause.startswith('skip'):
+            skipped.append(i)
+            continue
+        bad.append((cases[i], clause))
+    rep.extra['fast_run_not_judged_open_flag_bits'] = len(skipped)
+    if len(skipped) * 10 > len(cases) and len(cases) > 20:
+        raise MachineryError('FastRun: %d of %d cases not judged' % (len(skipped), len(cases)))
+    return bad
+
+
+def fast_section(rep, tier, sd, wd):
+    n = 50 if tier == 'quick' else 400
+    marks = [os.path.join(wd, 'fast-running-%d' % k) for k in range(16)]
+    with mp.get_context('fork').Pool(16) as pool:
+        job = pool.map_async(progdrv.fast_cases, [(sd * 613 + 11 + k, n, marks[k]) for k in range(16)])
+        try:
+            parts = job.get(timeout=900)
+        except mp.TimeoutError:
+            pool.terminate()
+            for m in marks:
+                if os.path.exists(m):
+                    rep.violation('fast:run-never-returned', 'run(start, stop) did not return for (impl, kind, regs, ov, stop) = %s' % open(m).read()[:2000])
+            return
+    cases = [c for p in parts for c in p]
+    own = sum(c['own'] for c in cases)
+    djnz = sum(1 for c in cases if c['kind'] != 'ldir' and not c['r0'][26])
+    rep.extra['fast_run_cases'] = len(cases)
+    rep.extra['fast_run_copy_reaches_own_bytes'] = own
+    rep.extra['fast_run_instructions'] = sum(c['steps'] for c in cases)
+    if own < 40 or djnz < 40 or len(cases) < 8 * n:
+        raise MachineryError('vacuous C06 fast-run section: %d cases, %d copies over the own instruction, %d DJNZ' % (len(cases), own, djnz))
+    log('C06: %d run(start, stop) programs (%d copies reaching the instruction itself)' % (len(cases), own))
+    for c, clause in judge_fast(rep, cases, wd):
+        rep.violation('fast:%s:%s' % (c['kind'], clause),
+                      'run(%d, %d) of a %s program (%d instructions when stepped, loop instruction at %d, IFF=%d): %s; final registers %s'
+                      % (c['r0'][24], c['stop'], c['kind'], c['steps'], c['at'], c['r0'][26], clause,
+                         {o['impl']: o['r'] for o in c['obs']}), dict(c, kind='fast-' + c['kind']))
+    rep.evaluations += len(cases) * 3
+    for c in cases:
+        rep.nontrivial.add(('fast', c['kind'], c['own'], c['steps'], c['r0'][26]))
+
+
 def run(tier):
     rep = Report(PID, tier)
     wd = workdir('c06')
@@ -106,6 +165,7 @@ def run(tier):
                           '%s (128K): %d instructions executed by ONE call of the trace loop end in a different state than one call '
                           'at a time: %s' % (t['pair'], len(t['obs']), t['whole']), t)
     rep.evaluations = (nsteps + nsteps128) * 2
+    fast_section(rep, tier, sd, wd)
     ints = halts = 0
     for t in traces:
         for i, o in enumerate(t['obs']):
@@ -136,7 +196,10 @@ def run(tier):
                 'judged by TLC as Z80!StepInt and for bit-identical pair state; 128K programs (0x7FFD paging incl. ROM/lock bits, '
                 'decoded and undecoded ports, OUTI, stores/stack/calls into the paged bank, interrupts right after paging) judged '
                 'by Machine128 (Step + latch + physical pages); runs that page bank 2/5 in at 0xC000 are judged for pair '
-                'agreement, latch, ranges and ROM immutability only; distinct_nontrivial = distinct (pair, PC, dT)')
+                'agreement, latch, ranges and ROM immutability only; LDIR/LDDR/DJNZ programs (copies starting on, next to or arriving at the '
+                'instruction itself, replacing it by another instruction; DJNZ $ and near misses; IFF 0/1) run as ONE run(start, stop) '
+                'call on Simulator with fast_djnz/fast_ldir, plain Simulator and CSimulator, judged by FastRun (Step iterated to stop); '
+                'distinct_nontrivial = distinct (pair, PC, dT) + distinct (kind, own-bytes, length, IFF)')
     rmworkdir('c06')
     return rep.finish()
 
@@ -165,6 +228,16 @@ def replay(path):
     again by MachineTrace / Machine128 and compare the one-call run with the stepped one again."""
     d, rp = replaylib.load(path, PID)
     wd = workdir('replay-c06')
+    if str(rp.get('kind', '')).startswith('fast-'):
+        replaylib.need(rp, path, 'r0', 'ov0', 'stop')
+        cbuild.preload()
+        c = progdrv.fast_case(rp['kind'][5:], rp['r0'], rp['ov0'], rp['stop'], rp.get('at', -1))
+        if c is None:
+            raise MachineryError('unusable replay file %s: the program does not reach its stop address when stepped' % path)
+        found = ['fast:%s:%s: run(%d, %d) final registers %s' % (c['kind'], clause, c['r0'][24], c['stop'], {o['impl']: o['r'] for o in c['obs']})
+                 for c, clause in judge_fast(Report(PID, 'replay'), [c], wd)]
+        rmworkdir('replay-c06')
+        return replaylib.verdict(PID, path, found)
     t, m128 = rerun(rp, path)
     rep = Report(PID, 'replay')          # only collects TLC statistics; never finished (no evidence written)
     bad = judge_runs128(rep, [t], wd) if m128 else judge_runs(rep, [t], wd)
